@@ -141,11 +141,27 @@ def campaign_call_unions(ck: Check, n: int, per_doc: int = 4) -> None:
         r = rng.fork(str(i))
         doc, insts, muts, feats, us = fc.call_union_doc(r, off + i, per_doc)
         for f in feats:
-            camp.hit(f"feature:{f}")
+            if f.startswith("call_place:"):
+                camp.hit(f"feature:{f}")
+        for u in us:  # per union, not per document
+            for f in u.feats:
+                camp.hit(f"feature:{f}")
         for m in muts:
             camp.hit(f"boundary:{m.keyword}@member{m.leaf.get('call_member')}of{m.leaf.get('call_members')}")
         if not muts:
             ck.infra_errors.append(f"call-union document {off + i} yields no confirmed boundary instance")
+        if i % 4 == 0:
+            # the hint texts the correspondence campaign feeds to the splitter are the ones the generator writes
+            from .. import semrun
+
+            for st in STYLES:
+                b = semrun.build(doc, st, semrun.ROUTING_OPTS["contype"])
+                for u in us:
+                    seen = b.ok and u.hint(st, with_none=False) in b.code
+                    camp.hit("hint_text_as_generated" if seen else "hint_text_not_as_generated")
+                    if not seen:
+                        camp.unmodelled += 1
+                b.close()
         routings = ("contype", "field") if i % 4 == 0 else ("contype",)
         failed = _run_doc(ck, camp, doc, insts, muts, routings=routings)
         if failed:
@@ -185,6 +201,6 @@ def search_call_unions(ck: Check) -> None:
 
 def run(ck: Check) -> None:
     quick = ck.tier == "quick"
-    campaign_call_hints(ck, 120 if quick else 1500)
-    campaign_call_unions(ck, 9 if quick else 120)
+    campaign_call_hints(ck, 240 if quick else 3000)
+    campaign_call_unions(ck, 20 if quick else 240)
     ck.search_hooks.append(search_call_unions)
